@@ -64,6 +64,9 @@ def evaluate(d, props):
     if rc != 0:
         return {"error": "patch does not apply to /repo: " + out[-300:]}
     det = {}
+    # the evidence files describe the unchanged tree: keep them (a check run against a seeded change rewrites its evidence file)
+    ev_dir = os.path.join(VERIF, "evidence")
+    saved = {f: open(os.path.join(ev_dir, f), "rb").read() for f in os.listdir(ev_dir) if f.endswith(".json")} if os.path.isdir(ev_dir) else {}
     try:
         for p in props:
             t0 = time.time()
@@ -86,6 +89,8 @@ def evaluate(d, props):
     finally:
         sh(["git", "-C", REPO, "checkout", "--", "."])
         shutil.rmtree(os.path.join(VERIF, "replays"), ignore_errors=True)
+        for f, b in saved.items():
+            open(os.path.join(ev_dir, f), "wb").write(b)
     return det
 
 
